@@ -164,6 +164,20 @@ func (c *corpusTree) ensureDBs() error {
 			sigs = append(sigs, dup)
 		}
 	}
+	if seed%3 == 0 && len(sigs) > 0 {
+		// a crowded bucket: 70 further copies of one signature (equal confidence for
+		// the same function) under different IDs, and 10 near variants
+		base := sigs[0]
+		for k := 0; k < 80; k++ {
+			cp := base
+			cp.ID = fmt.Sprintf("G-C%03d", k)
+			if k >= 70 {
+				cp.EntropyScore += float64(k-69) * 0.01
+				cp.Name = fmt.Sprintf("%s_v%d", base.Name, k)
+			}
+			sigs = append(sigs, cp)
+		}
+	}
 	if len(sigs) == 0 {
 		// guarantee at least one signature
 		sigs = append(sigs, detection.Signature{ID: "G-000", Name: "none", TopologyHash: "00", EntropyScore: 1, EntropyTolerance: 0.1})
@@ -344,7 +358,8 @@ type execResult struct {
 func execute(t *vs.Tape, maxprocs int, mapOrder, pool bool, mk func(fsys simFS) func() error, root string, decide func(op, rel string, isDir bool) string, fired *[]fsFault) execResult {
 	sim := vs.NewSim(vs.ModePark, t)
 	sim.MapOrderOn, sim.PoolOn = mapOrder, pool
-	sim.MaxSteps = 50000
+	sim.ParkAtPebble = true
+	sim.MaxSteps = 400000
 	fsys := simFS{sim: sim, root: root, faults: decide != nil, decide: decide, fired: fired}
 	fn := mk(fsys)
 	old := runtime.GOMAXPROCS(maxprocs)
